@@ -138,7 +138,12 @@ class ASTSchemaPrinter:
         lines = list(wrapped_lines(definition.description.split("\n"), max_len))
         first = lines[0]
 
-        if len(lines) == 1 and len(first) < 70 and not first.endswith('"'):
+        if (
+            len(lines) == 1
+            and len(first) < 70
+            and not first.endswith('"')
+            and not first.endswith("\\")
+        ):
             body = first.replace('"""', '\\"""')
         else:
             has_leading_whitespace = len(first) > len(first.lstrip())
